@@ -216,7 +216,10 @@ class MolecularContainer:
             opt = min(opt, point, key=lambda v: v[1])
         # find values within 80 % of optimum
         range_80pct: Tuple[Optional[float], Optional[float]] = (None, None)
-        values_within_80pct = [p[0] for p in profile if p[1] < 0.8*opt[1]]
+        # at most 20 % of |optimum| above the optimum (0.8*opt for opt < 0,
+        # 1.2*opt for opt > 0: 0.8*opt would lie below the minimum)
+        level_80pct = opt[1] + 0.2*abs(opt[1])
+        values_within_80pct = [p[0] for p in profile if p[1] <= level_80pct]
         if len(values_within_80pct) > 0:
             range_80pct = (min(values_within_80pct), max(values_within_80pct))
         # find stability range
